@@ -141,10 +141,14 @@ class IVFCLevel4Reader(RawIOBase):
     @_raise_if_level_closed
     def write(self, data: bytes) -> int:
         if self._seek + len(data) > self._lv4.size:
-            data = data[:self._lv4.size - self._seek]
+            data = data[:max(self._lv4.size - self._seek, 0)]
+
+        if not data:
+            return 0
 
         with self._lock:
             self._tree.write_data(4, self._seek, data)
+            self._seek += len(data)
 
             return len(data)
 
